@@ -80,6 +80,11 @@ class Prop:
                 alts = g["alts"]
             for i in range(0, len(alts), CHUNK):
                 yield dict(kind="alts", univ=g["univ"], setup=g["setup"], alts=alts[i:i + CHUNK], label=g["label"])
+        for g in mut.gen_shapes(mut.EXTRA_SHAPES[:2] if quick else mut.EXTRA_SHAPES, labelings=("distinct",) if quick else ("distinct", "equal"),
+                                families=("sort", "remove", "move") if quick else ("sort", "remove", "move", "short", "del", "copyto")):
+            alts = g["alts"] if not quick else [a for i, a in enumerate(g["alts"]) if a[0] != "move" or i % 4 == 0]
+            for i in range(0, len(alts), CHUNK):
+                yield dict(kind="alts", univ=g["univ"], setup=g["setup"], alts=alts[i:i + CHUNK], label=g["label"])
         if not quick:
             for g in mut.gen_exhaustive(3, typed=(True,)):
                 for i in range(0, len(g["alts"]), CHUNK):
